@@ -201,10 +201,16 @@ def read_config_from_json(config_class, json_data) -> typing.Optional[ModuleConf
   if config_class is None or json_data is None:
     return None
 
+  if not isinstance(json_data, dict):
+    raise ValueError("Invalid configuration. Expect: a JSON object.")
+
   json_config = json_data.get(config_class.name())
 
   if json_config is None:
     return None
+
+  if not isinstance(json_config, dict):
+    raise ValueError(f"Invalid '{config_class.name()}' configuration. Expect: a JSON object.")
 
   return config_class.parse(json_config)
 
